@@ -1,33 +1,61 @@
 #!/venv/bin/python
-"""dev helper: run the automatic alpha-renaming twins of one property in-process and print what changes"""
-import sys, traceback
-sys.path.insert(0, "/verif")
-from sa.frontend import Program
-from sa.check import load_rules, run_rules
-from sa.report import Ctx
-from sa.witness import all_variants, _apply
+"""dev helper: run the automatic behaviour-preserving twins (sa/autotwins.py + alpha renaming) of some / all properties and
+print which rule reports something or becomes undecided on which transformation.
+usage: tools/run_auto_twins.py [Cxx ...] [--all-checks]   (--all-checks: every property's rules on every twin of every file)"""
+import json
+import sys
+import traceback
+from concurrent.futures import ProcessPoolExecutor
 
-prop = sys.argv[1]
-mod = load_rules(prop)
-prog = Program()
-base = Ctx(prop, prog); run_rules(mod, base)
-bk = {f.key() for f in base.findings}
-print("base: inconclusive=%s findings=%d" % (base.inconclusive, len(base.findings)))
-for v in all_variants(prop, mod):
-    if not v.name.startswith("auto:"):
-        continue
+sys.path.insert(0, "/verif")
+
+
+def one(args):
+    prop, idx = args
+    from sa.frontend import Program
+    from sa.check import load_rules, run_rules
+    from sa.report import Ctx
+    from sa.witness import all_variants, _apply
+    mod = load_rules(prop)
+    prog = Program()
+    base = Ctx(prop, prog)
+    run_rules(mod, base)
+    bk = {f.key() for f in base.findings}
+    v = all_variants(prop, mod)[idx]
     try:
         p2 = _apply(prog, v)
         if p2 is None:
-            print(v.name, "-> not applicable"); continue
+            return prop, v.name, "n/a", ""
         ctx = Ctx(prop, p2)
-        mod.run(ctx)
-        try:
-            ctx.check_floors()
-        except Exception as e:
-            ctx.inconclusive_rules.append(str(e))
+        run_rules(mod, ctx)
         new = [f for f in ctx.findings if f.key() not in bk]
-        print(v.name, "->", "inconclusive: %s" % ctx.inconclusive_rules if ctx.inconclusive_rules else "", [(f.rule, f.message[:150]) for f in new] or "silent")
+        if new:
+            return prop, v.name, "ALARM", "; ".join("%s %s %s" % (f.rule, f.construct.split(":")[-1], f.message[:140]) for f in new[:3])
+        if ctx.inconclusive:
+            return prop, v.name, "undecided", ctx.inconclusive[:260]
+        return prop, v.name, "silent", ""
     except Exception as e:
-        traceback.print_exc()
-        print(v.name, "-> EXC", e)
+        return prop, v.name, "EXC", "%s: %s" % (type(e).__name__, str(e)[:200]) + traceback.format_exc()[-400:]
+
+
+def main():
+    from sa.check import load_rules
+    from sa.witness import all_variants
+    man = json.load(open("/verif/MANIFEST.json"))
+    props = [a.upper() for a in sys.argv[1:] if not a.startswith("-")] or [c["property_id"] for c in man["checks"]]
+    jobs = []
+    for p in props:
+        mod = load_rules(p)
+        for i, v in enumerate(all_variants(p, mod)):
+            if v.name.startswith("auto:"):
+                jobs.append((p, i))
+    tally = {}
+    with ProcessPoolExecutor(12) as ex:
+        for prop, name, verdict, detail in ex.map(one, jobs, chunksize=1):
+            tally[verdict] = tally.get(verdict, 0) + 1
+            if verdict not in ("silent", "n/a"):
+                print("%s  %-60s %s  %s" % (prop, name[:60], verdict, detail))
+    print(tally)
+
+
+main()
